@@ -8,4 +8,8 @@ import UberjobModel.Props.C04
 #print axioms Uberjob.Engine.C04_runs_exactly_needed
 #print axioms Uberjob.Engine.C04_random_put_perm
 #print axioms Uberjob.Engine.C04_random_get_perm
+#print axioms Uberjob.Engine.C04_priority_init_perm
+#print axioms Uberjob.Engine.C04_priority_put_perm
+#print axioms Uberjob.Engine.C04_priority_get_perm
+#print axioms Uberjob.Engine.C04_priority_get_none
 #print axioms Uberjob.Engine.C04_queue_shapes
